@@ -322,7 +322,9 @@ func run15(c limCase) {
 		wire = wire[:c.Truncate]
 	}
 	exp := limitRef(c.Frames, c.Limit)
-	rcfg := cfg{Client: rng.Intn(2) == 0, Limit: c.Limit, ReadLimit: c.ReadLimit, EnComp: c.EnComp, WComp: c.EnComp, FrameLimit: 32768, Level: 1, Decomp: c.Decomp, Hooks: true}
+	rcfg := cfg{Client: rng.Intn(2) == 0, Limit: c.Limit, ReadLimit: c.ReadLimit, EnComp: c.EnComp, WComp: c.EnComp, FrameLimit: 32768, Level: 1, Decomp: c.Decomp, Hooks: true,
+		Alloc: allocKinds[rng.Intn(len(allocKinds))]}
+	rep.Stat("15:alloc=" + rcfg.Alloc)
 	var segs []segmentation
 	if c.ReadLimit > 0 {
 		// pieces smaller and larger than the read limit
